@@ -71,7 +71,8 @@ func (sfc *StructFieldsCopy) createFieldSnippet(f *types.Var) snippet.Snippet {
 		if fc == nil {
 			fc = &FieldContext{}
 
-			fc.InSamePkg = x.Obj().Pkg().Path() == sfc.Pkg.Path()
+			// predeclared types such as `error` have no package
+			fc.InSamePkg = x.Obj().Pkg() != nil && x.Obj().Pkg().Path() == sfc.Pkg.Path()
 			fc.PtrResultOrParam = true
 
 			for i := 0; i < x.NumMethods(); i++ {
